@@ -8,6 +8,11 @@ for l in open('/verif/properties.jsonl'):
     if p['id'] == pid: break
 wt = f"/tmp/wt{rnd}-{pid}"
 HARD = ("IMPORTANT — this is a second, harder round. Assume a reviewer will run large randomized differential tests of this library against an independent reference implementation (hundreds of thousands of random robots, poses, joint vectors, constraint sets, scenes) and property checks on the outputs. Your changes must be ones such testing is UNLIKELY to hit: they should manifest only on a thin set of inputs (an exact boundary value, equality of two quantities, a value just past a threshold, a combination of three independent conditions, an argument order that only matters for non-commutative cases, a rarely used public entry point or constructor, a particular length/ordering of a collection, state carried between two calls) while still being realistic slips and still clearly violating the property. Avoid the obvious candidates (sign flips in core formulas, dropped filters on main paths).\n\n" if rnd else "")
+if rnd == "6":
+    HARD += ("Additional steer for this round: prefer a change OUTSIDE the most obvious function for this property -- a constructor, a wrapper or "
+             "delegate, a helper or conversion utility, a default value, a rarely used public method or parameter combination, the interaction of two "
+             "features (e.g. limits + a special previous value + a wrapper), or state kept in an object between calls. The breakage must still be a "
+             "clear violation of the property as stated, observable through the public API.\n\n")
 print(f"""You are given a scratch git worktree of the Rust crate `rs-opw-kinematics` (analytical inverse/forward kinematics for 6-axis OPW robots, with constraints, tool/base frames, Jacobian, collisions, path planning) at {wt}. Work ONLY inside {wt}. Do not read or touch /repo or /verif. The sandbox has no network: always pass --offline to cargo (or set CARGO_NET_OFFLINE=true). Use this command for the existing test-suite (66 tests, all must pass; first build takes a few minutes):
 
     cd {wt} && cargo test --lib --offline --no-default-features --features "allow_filesystem collisions stroke_planning" 2>&1 | tail -15
